@@ -265,6 +265,45 @@ def check_append(F, bodies, V4):
                 V4.violation(('append-unpaired', b.path, 'seq%s' % seq_ok, 'np%s' % inc_np, 'rp%s' % inc_rp),
                              'file data is appended at %s without (expected-package guard: %s, next_package += 1: %s, recvd_payload += len: %s)' % (b.loc(blk.term.sp), seq_ok, inc_np, inc_rp), where=b.loc(blk.term.sp))
     V4.floor('append sites to file_data', n, 1)
+    # converse: whenever the received-payload counter advances, the bytes are appended too - on every path, except under the
+    # established "nothing is kept" idiom `file_data.capacity() > 0` == false
+    m = 0
+    for b in bodies:
+        cfg = None
+        for x in b.blocks:
+            if x.cleanup:
+                continue
+            for st in x.stmts:
+                if st.k != 'assign':
+                    continue
+                cfg = cfg or CFG(b)
+                E = ExprBuilder(cfg)
+                tg = show(E.target(st.place))
+                ev = show(E.rvalue(st.rv))
+                if not (tg.endswith('.recvd_payload') and ev.startswith('Add(') and 'recvd_payload' in ev and 'len' in ev):
+                    continue
+                m += 1
+                V4.sites += 1
+                appends = set(y.i for y in b.calls() if (y.term.callee.path.endswith('::extend_from_slice') or y.term.callee.path.endswith('Vec::<T, A>::append')) and
+                              'file_data' in show(E.operand(y.term.args[0])))
+                excused = set()
+                for y in b.blocks:
+                    if y.cleanup or y.term.k != 'switch':
+                        continue
+                    c, t = guards.normalise(E.switch_cond(y), True)
+                    sc = show(c)
+                    if re.match(r'(Gt|Ne)\(Vec::capacity\(&?\(\*self\)\.file_data\), 0\)$', sc):
+                        excused |= set(tt for v, tt in y.term.d['vals'] if v == 0)
+                    elif re.match(r'Eq\(Vec::capacity\(&?\(\*self\)\.file_data\), 0\)$', sc):
+                        excused.add(y.term.d['otherwise'])
+                r = cfg.reachable_from(x.i, avoid=appends | excused)
+                esc = [e for e in cfg.exits if e in r]
+                if appends and not esc:
+                    V4.ok(sample={'counter_advance_at': b.loc(st.sp), 'followed_by': 'append of the package on every path (or nothing is kept: capacity() == 0)'})
+                else:
+                    V4.violation(('counted-not-appended', b.path), 'recvd_payload advances at %s but a path to the end of %s skips the append of the package although data is kept (capacity() > 0): '
+                                 'the transfer completes with the announced size while file_data misses bytes' % (b.loc(st.sp), b.path), where=b.loc(st.sp))
+    V4.floor('advances of recvd_payload', m, 1)
 
 
 def check_save_table(F, bodies, other_creates, V5):
